@@ -11,6 +11,13 @@ termination of the batch loop `cel_iterv` and of the dispatcher `cel_iter` (`cel
 Cylinder (Model/Cylinder.lean): the near-axis Taylor branch divides by positive numbers only
 (`cylinder_axis_branch_defined`); every `cel0` call of both kernels has a non-zero modulus off the masked
 edge and `BHJM_magnet_cylinder` returns for every input with positive diameter (`cylinder_terminates`).
+Cuboid: the wrapper's edge mask covers the zero set of all 24 logarithm factors of `magnet_cuboid_Bfield`
+after the reflection into the bottom-Q4 octant (`cuboid_defined_off_edges`); `arctan2(0,0)` occurs exactly on
+the three edge lines through the corner (a,-b,-c), extensions included, where the general branch is reached
+(`cuboid_atan2_defined_off_edge_lines`, `cuboid_edge_extension_reaches_general`).
+Triangle: every operation of `triangle_Bfield` is defined off the closed edges, except on a spherical cap inside
+the cone of the branch switch `ind > 1e-12 l` (`triangle_defined_off_edges`, `triangle_cap_singular`).
+Polyline: the two masks cover the singular set of the segment kernel (`polyline_masks_cover_singular`).
 /- FULL: all classes, IEEE double, termination of the el3 iterations and of the vectorised `celv`
    (per entry the `cel0` loop run at least once, no `kc == 0` guard; not modelled).  Not representable in
    exact real arithmetic: overflow/underflow (r**5 for r < 1e-65, sizes 1e9), NaN from inf−inf,
@@ -23,6 +30,7 @@ import MagpyVerif.Lemmas.KernelLiterals
 import MagpyVerif.Lemmas.SegmentBS
 import MagpyVerif.Lemmas.CelAGM
 import MagpyVerif.Lemmas.KernCylinder
+import MagpyVerif.Lemmas.KernDefined
 namespace MagpyVerif.C15
 open MagpyVerif MagpyVerif.Kern
 
@@ -330,5 +338,242 @@ theorem cylinder_terminates (f : Field) (d h : ℝ) (pol x : V3 ℝ) (hd : 0 < d
 
 example : (bhjmCylinder (cylFuelX 2 3 ⟨3, 4, 1⟩) .B ((2 : ℝ), 3) ⟨1, 2, 3⟩ ⟨3, 4, 1⟩).isSome :=
   cylinder_terminates .B 2 3 _ _ (by norm_num) (by norm_num) _ le_rfl
+
+/-! ### Cuboid: the edge mask covers the singular set of the closed form -/
+
+/-- C15 (Cuboid): a row that `BHJM_magnet_cuboid` sends to the general branch (`mask_gen`: polarization
+and all side lengths non-zero, observer not within the relative tolerance `1e-15` of one of the
+twelve body edges), for positive side lengths: after the reflection into the bottom-Q4 octant
+(`cuboidReflect`, `x ↦ |x|, y ↦ -|y|, z ↦ -|z|`) each of the 24 factors inside the six logarithms of
+`magnet_cuboid_Bfield` has a fixed sign (`CuboidLogSigns`: 20 are positive; the four that the source
+writes `(ymb - mmp)`, `(ypb - ppp)`, `(zmc - mpm)`, `(zpc - ppp)` are negative, two in each of two
+products), all six products — spelled here as in the source — are positive, and the three logarithmic
+factors of the model `cuboidFF` are sums of logarithms of positive numbers.  Only the three factors
+containing the corner distance `mpp` can vanish at all, and they do so exactly on the closed body
+edges (`cuboid_log_zero_on_edge_x/y/z`), not on their extensions: the mask covers the singular set. -/
+theorem cuboid_defined_off_edges (dim pol obs : V3 ℝ) (hx : 0 < dim.x) (hy : 0 < dim.y)
+    (hz : 0 < dim.z) (hgen : (cuboidMasks dim pol obs).general = true) :
+    let r := cuboidReflect obs
+    let xma := r.x - dim.x / 2; let xpa := r.x + dim.x / 2
+    let ymb := r.y - dim.y / 2; let ypb := r.y + dim.y / 2
+    let zmc := r.z - dim.z / 2; let zpc := r.z + dim.z / 2
+    let mmm := √(xma * xma + ymb * ymb + zmc * zmc); let pmp := √(xpa * xpa + ymb * ymb + zpc * zpc)
+    let pmm := √(xpa * xpa + ymb * ymb + zmc * zmc); let mmp := √(xma * xma + ymb * ymb + zpc * zpc)
+    let mpm := √(xma * xma + ypb * ypb + zmc * zmc); let ppp := √(xpa * xpa + ypb * ypb + zpc * zpc)
+    let ppm := √(xpa * xpa + ypb * ypb + zmc * zmc); let mpp := √(xma * xma + ypb * ypb + zpc * zpc)
+    CuboidLogSigns xma xpa ymb ypb zmc zpc ∧
+    0 < (xma + mmm) * (xpa + ppm) * (xpa + pmp) * (xma + mpp) ∧
+    0 < (xpa + pmm) * (xma + mpm) * (xma + mmp) * (xpa + ppp) ∧
+    0 < (-ymb + mmm) * (-ypb + ppm) * (-ymb + pmp) * (-ypb + mpp) ∧
+    0 < (-ymb + pmm) * (-ypb + mpm) * (ymb - mmp) * (ypb - ppp) ∧
+    0 < (-zmc + mmm) * (-zmc + ppm) * (-zpc + pmp) * (-zpc + mpp) ∧
+    0 < (-zmc + pmm) * (zmc - mpm) * (-zpc + mmp) * (zpc - ppp) ∧
+    (cuboidFF xma xpa ymb ypb zmc zpc).ff2x =
+      Real.log (xma + mmm) + Real.log (xpa + ppm) + Real.log (xpa + pmp) + Real.log (xma + mpp) -
+      (Real.log (xpa + pmm) + Real.log (xma + mpm) + Real.log (xma + mmp) + Real.log (xpa + ppp)) ∧
+    (cuboidFF xma xpa ymb ypb zmc zpc).ff2y =
+      Real.log (-ymb + mmm) + Real.log (-ypb + ppm) + Real.log (-ymb + pmp) + Real.log (-ypb + mpp) -
+      (Real.log (-ymb + pmm) + Real.log (-ypb + mpm) + Real.log (-(ymb - mmp)) + Real.log (-(ypb - ppp))) ∧
+    (cuboidFF xma xpa ymb ypb zmc zpc).ff2z =
+      Real.log (-zmc + mmm) + Real.log (-zmc + ppm) + Real.log (-zpc + pmp) + Real.log (-zpc + mpp) -
+      (Real.log (-zmc + pmm) + Real.log (-(zmc - mpm)) + Real.log (-zpc + mmp) + Real.log (-(zpc - ppp))) := by
+  intro r xma xpa ymb ypb zmc zpc mmm pmp pmm mmp mpm ppp ppm mpp
+  obtain ⟨h1, h2, h3, hoff⟩ := cuboidMasks_general_off_edges dim pol obs hx hy hz hgen
+  have S : CuboidLogSigns xma xpa ymb ypb zmc zpc := cuboid_log_signs h1 h2 h3 hoff
+  have L := cuboidFF_logs_of_signs S
+  refine ⟨S, ?_, ?_, ?_, ?_, ?_, ?_, L.1, L.2.1, L.2.2⟩
+  · exact mul_pos (mul_pos (mul_pos S.x1 S.x2) S.x3) S.x4
+  · exact mul_pos (mul_pos (mul_pos S.x5 S.x6) S.x7) S.x8
+  · exact mul_pos (mul_pos (mul_pos S.y1 S.y2) S.y3) S.y4
+  · have := mul_pos (mul_pos (mul_pos S.y5 S.y6) (neg_pos.mpr S.y7)) (neg_pos.mpr S.y8)
+    simp only [cdist] at this
+    nlinarith [this]
+  · exact mul_pos (mul_pos (mul_pos S.z1 S.z2) S.z3) S.z4
+  · have := mul_pos (mul_pos (mul_pos S.z5 (neg_pos.mpr S.z6)) S.z7) (neg_pos.mpr S.z8)
+    simp only [cdist] at this
+    nlinarith [this]
+
+-- non-vacuity: an observer outside, one on a face, one on an edge *extension* are general rows
+example : (cuboidMasks (⟨1, 2, 3⟩ : V3 ℝ) ⟨0, 0, 1⟩ ⟨2, 3, 4⟩).general = true := by
+  simp [cuboidMasks, n]; norm_num
+example : (cuboidMasks (⟨1, 2, 3⟩ : V3 ℝ) ⟨0, 0, 1⟩ ⟨1 / 2, 0, 0⟩).general = true := by
+  simp [cuboidMasks, n]; norm_num
+example : 0 < (cuboidReflect (⟨2, 3, 4⟩ : V3 ℝ)).x - 1 / 2 +
+    √(((cuboidReflect (⟨2, 3, 4⟩ : V3 ℝ)).x - 1 / 2) * ((cuboidReflect (⟨2, 3, 4⟩ : V3 ℝ)).x - 1 / 2) +
+      ((cuboidReflect (⟨2, 3, 4⟩ : V3 ℝ)).y + 2 / 2) * ((cuboidReflect (⟨2, 3, 4⟩ : V3 ℝ)).y + 2 / 2) +
+      ((cuboidReflect (⟨2, 3, 4⟩ : V3 ℝ)).z + 3 / 2) * ((cuboidReflect (⟨2, 3, 4⟩ : V3 ℝ)).z + 3 / 2)) :=
+  (cuboid_defined_off_edges ⟨1, 2, 3⟩ ⟨0, 0, 1⟩ ⟨2, 3, 4⟩ (by norm_num) (by norm_num) (by norm_num)
+    (by simp [cuboidMasks, n]; norm_num)).1.x4
+
+/-- C15 (Cuboid): a general row whose reflected observer is moreover off the three edge *lines*
+through the corner `(a, -b, -c)` (body edges and their extensions): none of the 24 `arctan2` calls
+of `magnet_cuboid_Bfield` (`cuboidAtan2Args`, tied to the model by `cuboidFF_atan2_args`) receives
+`(0, 0)`.  The extra hypothesis is necessary, see `cuboid_edge_extension_reaches_general`. -/
+theorem cuboid_atan2_defined_off_edge_lines (dim pol obs : V3 ℝ) (hx : 0 < dim.x) (hy : 0 < dim.y)
+    (hz : 0 < dim.z) (hgen : (cuboidMasks dim pol obs).general = true)
+    (hline : ¬ (|obs.x| = dim.x / 2 ∧ |obs.y| = dim.y / 2) ∧ ¬ (|obs.x| = dim.x / 2 ∧ |obs.z| = dim.z / 2) ∧
+      ¬ (|obs.y| = dim.y / 2 ∧ |obs.z| = dim.z / 2)) :
+    let r := cuboidReflect obs
+    ∀ p ∈ cuboidAtan2Args (r.x - dim.x / 2) (r.x + dim.x / 2) (r.y - dim.y / 2) (r.y + dim.y / 2)
+      (r.z - dim.z / 2) (r.z + dim.z / 2), p.1 ≠ 0 ∨ p.2 ≠ 0 := by
+  intro r
+  obtain ⟨h1, h2, h3, _⟩ := cuboidMasks_general_off_edges dim pol obs hx hy hz hgen
+  have hr : r = ⟨|obs.x|, -|obs.y|, -|obs.z|⟩ := cuboidReflect_eq obs
+  refine cuboid_atan2_args_ne_zero h1 h2 h3 ?_ ?_ ?_ <;> simp only [hr] <;> rintro ⟨e1, e2⟩
+  · exact hline.1 ⟨by linarith, by linarith⟩
+  · exact hline.2.1 ⟨by linarith, by linarith⟩
+  · exact hline.2.2 ⟨by linarith, by linarith⟩
+
+example : ∀ p ∈ cuboidAtan2Args ((cuboidReflect (⟨2, 3, 4⟩ : V3 ℝ)).x - 1 / 2) ((cuboidReflect (⟨2, 3, 4⟩ : V3 ℝ)).x + 1 / 2)
+    ((cuboidReflect (⟨2, 3, 4⟩ : V3 ℝ)).y - 2 / 2) ((cuboidReflect (⟨2, 3, 4⟩ : V3 ℝ)).y + 2 / 2)
+    ((cuboidReflect (⟨2, 3, 4⟩ : V3 ℝ)).z - 3 / 2) ((cuboidReflect (⟨2, 3, 4⟩ : V3 ℝ)).z + 3 / 2), p.1 ≠ 0 ∨ p.2 ≠ 0 :=
+  cuboid_atan2_defined_off_edge_lines ⟨1, 2, 3⟩ ⟨0, 0, 1⟩ ⟨2, 3, 4⟩ (by norm_num) (by norm_num) (by norm_num)
+    (by simp [cuboidMasks, n]; norm_num) (by norm_num)
+
+/-- C15 (Cuboid), what the edge mask does NOT cover: on the *extension* of a body edge (here the
+observer `(a, -b, -2c)` of the cuboid with sides `(1, 2, 3)`, on the line through the vertical edge
+`x = a, y = -b` below the body) the row is a general row, all logarithm arguments are positive
+(`cuboid_defined_off_edges` applies), and `arctan2(0, 0)` IS evaluated.  In IEEE arithmetic that is
+not an error (`numpy.arctan2(±0, +0) = ±0`) and the occurrences enter `ff1x`, `ff1y` with opposite
+signs; the real code returns the continuous finite value there (probed, see the report). -/
+theorem cuboid_edge_extension_reaches_general :
+    (cuboidMasks (⟨1, 2, 3⟩ : V3 ℝ) ⟨0, 0, 1⟩ ⟨1 / 2, -1, -3⟩).general = true ∧
+    (0, 0) ∈ cuboidAtan2Args ((cuboidReflect (⟨1 / 2, -1, -3⟩ : V3 ℝ)).x - 1 / 2)
+      ((cuboidReflect (⟨1 / 2, -1, -3⟩ : V3 ℝ)).x + 1 / 2) ((cuboidReflect (⟨1 / 2, -1, -3⟩ : V3 ℝ)).y - 2 / 2)
+      ((cuboidReflect (⟨1 / 2, -1, -3⟩ : V3 ℝ)).y + 2 / 2) ((cuboidReflect (⟨1 / 2, -1, -3⟩ : V3 ℝ)).z - 3 / 2)
+      ((cuboidReflect (⟨1 / 2, -1, -3⟩ : V3 ℝ)).z + 3 / 2) := by
+  refine ⟨by simp [cuboidMasks, n]; norm_num, ?_⟩
+  apply cuboid_atan2_zero_on_edge_lines
+  left
+  rw [cuboidReflect_eq]
+  norm_num
+
+/-! ### Triangle sheet (`triangle_Bfield`; also every face of Tetrahedron and TriangularMesh) -/
+
+/-- C15 (Triangle): `triangle_Bfield` has no special-case masks besides the branch switch of the edge
+integral (`ind > 1e-12·l`).  For a triangle with non-zero normal vector and an observer that is
+(1) not on one of the three *closed edges* (vertices included; the edge *extensions* are allowed —
+there the second branch of `I` is taken and is defined) and
+(2) for each edge, if the second branch is taken (`¬ triEdgeFar`: the observer is in the narrow cone
+`r + R·L/l ≤ 1e-12·l` around the ray from the edge's start vertex along the edge), not at distance
+exactly `l` from the start vertex (`R·R ≠ L·L`; the second branch computes `log(|l - r| / r)`),
+every operation of the kernel is defined: the normalisation divides by `|n| > 0`; for each edge the
+branch of `triEdgeI` that is taken (`TriEdgeDefined`, tied to the model by `triEdgeI_eq`/`triEdgeS`)
+takes square roots of non-negative numbers, divides by positive numbers and takes `log` of a positive
+number; the `arctan2` of `solid_angle` does not receive `(0, 0)`.
+Hypothesis (2) cannot be dropped (`triangle_cap_singular`), and it is not implied by "off the edge
+lines": it is a genuine singular set of the code that the true field does not have. -/
+theorem triangle_defined_off_edges (v0 v1 v2 obs : V3 ℝ)
+    (hnd : (V3.cross (v1 - v0) (v2 - v0)).x ≠ 0 ∨ (V3.cross (v1 - v0) (v2 - v0)).y ≠ 0 ∨
+      (V3.cross (v1 - v0) (v2 - v0)).z ≠ 0)
+    (he01 : ¬ OriginOnSegment (v0 - obs) (v1 - obs)) (he12 : ¬ OriginOnSegment (v1 - obs) (v2 - obs))
+    (he02 : ¬ OriginOnSegment (v0 - obs) (v2 - obs))
+    (hc0 : ¬ triEdgeFar (V3.dot (v0 - obs) (v0 - obs)) (V3.dot (v1 - v0) (v1 - v0)) (V3.dot (v0 - obs) (v1 - v0)) →
+      V3.dot (v0 - obs) (v0 - obs) ≠ V3.dot (v1 - v0) (v1 - v0))
+    (hc1 : ¬ triEdgeFar (V3.dot (v1 - obs) (v1 - obs)) (V3.dot (v2 - v1) (v2 - v1)) (V3.dot (v1 - obs) (v2 - v1)) →
+      V3.dot (v1 - obs) (v1 - obs) ≠ V3.dot (v2 - v1) (v2 - v1))
+    (hc2 : ¬ triEdgeFar (V3.dot (v2 - obs) (v2 - obs)) (V3.dot (v0 - v2) (v0 - v2)) (V3.dot (v2 - obs) (v0 - v2)) →
+      V3.dot (v2 - obs) (v2 - obs) ≠ V3.dot (v0 - v2) (v0 - v2)) :
+    let R0 := v0 - obs; let R1 := v1 - obs; let R2 := v2 - obs
+    let L0 := v1 - v0; let L1 := v2 - v1; let L2 := v0 - v2
+    0 < Kern.norm (V3.cross (v1 - v0) (v2 - v0)) ∧
+    TriEdgeDefined (V3.dot R0 R0) (V3.dot L0 L0) (V3.dot R0 L0) ∧
+    TriEdgeDefined (V3.dot R1 R1) (V3.dot L1 L1) (V3.dot R1 L1) ∧
+    TriEdgeDefined (V3.dot R2 R2) (V3.dot L2 L2) (V3.dot R2 L2) ∧
+    (V3.dot R2 (V3.cross R1 R0) ≠ 0 ∨
+      Kern.norm R0 * Kern.norm R1 * Kern.norm R2 + V3.dot R2 R1 * Kern.norm R0 + V3.dot R2 R0 * Kern.norm R1 +
+        V3.dot R1 R0 * Kern.norm R2 ≠ 0) := by
+  intro R0 R1 R2 L0 L1 L2
+  obtain ⟨l0, l1, l2⟩ := triangle_edges_pos v0 v1 v2 hnd
+  have p0 : 0 < V3.dot R0 R0 := lt_of_le_of_ne (dot_self_nonneg R0)
+    (fun e => he01 (originOnSegment_of_left_zero e.symm))
+  have p1 : 0 < V3.dot R1 R1 := lt_of_le_of_ne (dot_self_nonneg R1)
+    (fun e => he12 (originOnSegment_of_left_zero e.symm))
+  have p2 : 0 < V3.dot R2 R2 := lt_of_le_of_ne (dot_self_nonneg R2)
+    (fun e => he02 (originOnSegment_of_right_zero e.symm))
+  refine ⟨norm_pos_of_ne_zero _ hnd, triEdge_defined R0 L0 l0 (fun h => ⟨p0, hc0 h⟩),
+    triEdge_defined R1 L1 l1 (fun h => ⟨p1, hc1 h⟩), triEdge_defined R2 L2 l2 (fun h => ⟨p2, hc2 h⟩), ?_⟩
+  exact solidAngle_args_ne_zero R0 R1 R2 he01 he12 he02
+
+-- non-vacuity: the unit right triangle in the plane z = 0, observer two units above a vertex
+example : 0 < Kern.norm (V3.cross ((⟨1, 0, 0⟩ : V3 ℝ) - ⟨0, 0, 0⟩) (⟨0, 1, 0⟩ - ⟨0, 0, 0⟩)) :=
+  (triangle_defined_off_edges ⟨0, 0, 0⟩ ⟨1, 0, 0⟩ ⟨0, 1, 0⟩ ⟨0, 0, 2⟩
+    (by simp [V3.cross])
+    (by rintro ⟨t, _, _, _, _, hz⟩; simp only [V3.sub_z] at hz; norm_num at hz; linarith)
+    (by rintro ⟨t, _, _, _, _, hz⟩; simp only [V3.sub_z] at hz; norm_num at hz; linarith)
+    (by rintro ⟨t, _, _, _, _, hz⟩; simp only [V3.sub_z] at hz; norm_num at hz; linarith)
+    (fun _ => by simp only [V3.dot, V3.sub_x, V3.sub_y, V3.sub_z]; norm_num)
+    (fun _ => by simp only [V3.dot, V3.sub_x, V3.sub_y, V3.sub_z]; norm_num)
+    (fun _ => by simp only [V3.dot, V3.sub_x, V3.sub_y, V3.sub_z]; norm_num)).1
+
+/-- C15 (Triangle), the singular cap: there are observers off all three edge lines (even off the
+triangle's plane) for which the second branch of the edge integral is taken and its `log` receives 0.
+Edge from `v0 = 0` along `L = (1, 0, 0)`, observer `(x, 0, y)` on the unit sphere around `v0` with
+`x = (10¹⁴ - 1)/(10¹⁴ + 1)`, `y = 2·10⁷/(10¹⁴ + 1)` (angle `2·10⁻⁷` to the edge, distance `2·10⁻⁷` from
+the end vertex): `ind = 1 - x ≈ 2·10⁻¹⁴ ≤ 10⁻¹²·l`, `r = l = 1`.  In IEEE arithmetic the set is
+thicker: every observer `v1 + δ`, `δ ⟂ L`, `|δ| < 1e-8·l` has `r == l` after rounding and the real code
+returns NaN there (see the report). -/
+theorem triangle_cap_singular :
+    let R : V3 ℝ := ⟨-((10 ^ 14 - 1) / (10 ^ 14 + 1)), 0, -(2 * 10 ^ 7 / (10 ^ 14 + 1))⟩
+    let L : V3 ℝ := ⟨1, 0, 0⟩
+    R.z ≠ 0 ∧ ¬ triEdgeFar (V3.dot R R) (V3.dot L L) (V3.dot R L) ∧
+      |√(V3.dot L L) - √(V3.dot R R)| / √(V3.dot R R) = 0 := by
+  intro R L
+  have hRR : V3.dot R R = 1 := by simp only [V3.dot, R]; norm_num
+  have hLL : V3.dot L L = 1 := by simp only [V3.dot, L]; norm_num
+  have hRL : V3.dot R L = -((10 ^ 14 - 1) / (10 ^ 14 + 1)) := by simp only [V3.dot, R, L]; norm_num
+  refine ⟨by simp only [R]; norm_num, ?_, ?_⟩
+  · rw [hRR, hLL, hRL]
+    unfold triEdgeFar
+    rw [Real.sqrt_one, not_lt, abs_of_nonneg (by norm_num)]
+    norm_num
+  · rw [hRR, hLL, Real.sqrt_one]; norm_num
+
+/-! ### Polyline: the two masks cover the singular set of the segment kernel -/
+
+/-- C15 (Polyline): a row of `BHJM_current_polyline` that passes both masks — `mask_equal` false
+(start ≠ end, compared exactly) and `mask1` of `current_polyline_Hfield` false (the distance
+`norm_o4` of the observer from the carrier line, in units of the segment length, is not below
+`1e-15`) — has its observer off the carrier line, so every divisor of the kernel (segment length,
+`norm_o4`, `norm_cros`, `norm_o1`, `norm_o2`) is positive; and on such a row the wrapper returns the
+closed form `segmentH` (H) resp. `μ₀·segmentH` (B) -/
+theorem polyline_masks_cover_singular (cur : ℝ) (p1 p2 po : V3 ℝ) (hne : v3eq p1 p2 = false)
+    (hmask : ¬ (segmentCore (vd p1 (Kern.norm (p1 - p2))) (vd p2 (Kern.norm (p1 - p2)))
+      (vd po (Kern.norm (p1 - p2)))).2.1 < 1 / 1000000000000000) :
+    (let L := Kern.norm (p1 - p2)
+     let q1 := vd p1 L; let q2 := vd p2 L; let qo := vd po L
+     let p4 := q1 + vs (V3.dot (qo - q1) (q1 - q2)) (q1 - q2)
+     0 < L ∧ 0 < Kern.norm (qo - p4) ∧ 0 < Kern.norm (V3.cross (q2 - q1) (qo - p4)) ∧
+       0 < Kern.norm (qo - q1) ∧ 0 < Kern.norm (qo - q2)) ∧
+    bhjmSegment .H cur p1 p2 po = segmentH cur p1 p2 po ∧
+    bhjmSegment .B cur p1 p2 po = vs mu0R (segmentH cur p1 p2 po) := by
+  refine ⟨segment_defined_off_line p1 p2 po (polyline_masks_off_line p1 p2 po hne hmask), ?_, ?_⟩
+  · simp only [bhjmSegment, hne, Bool.false_eq_true, if_false, segmentHMasked, segmentH, lt_real, n,
+      ofNat_real, Nat.cast_one, Nat.cast_ofNat, hmask, decide_false]
+  · simp only [bhjmSegment, hne, Bool.false_eq_true, if_false, segmentHMasked, segmentH, lt_real, n,
+      ofNat_real, Nat.cast_one, Nat.cast_ofNat, hmask, decide_false, mu0_real]
+
+/-- C15 (Polyline): the rows the masks catch return 0 without evaluating the kernel: zero-length
+segments (every field) and observers on the carrier line (`norm_o4 < 1e-15`) -/
+theorem polyline_masked_rows_zero (f : Field) (cur : ℝ) (p1 p2 po : V3 ℝ) :
+    bhjmSegment f cur p1 p1 po = zero3 ∧
+    ((segmentCore (vd p1 (Kern.norm (p1 - p2))) (vd p2 (Kern.norm (p1 - p2)))
+      (vd po (Kern.norm (p1 - p2)))).2.1 < 1 / 1000000000000000 → segmentHMasked cur p1 p2 po = zero3) := by
+  constructor
+  · cases f <;> simp [bhjmSegment, v3eq]
+  · intro h
+    simp only [segmentHMasked, lt_real, n, ofNat_real, Nat.cast_one, Nat.cast_ofNat, h, decide_true, if_true]
+
+-- non-vacuity: unit segment on the x-axis, observer at height 1 above its start
+example : 0 < Kern.norm ((⟨0, 0, 0⟩ : V3 ℝ) - ⟨1, 0, 0⟩) := by
+  have hL : Kern.norm ((⟨0, 0, 0⟩ : V3 ℝ) - ⟨1, 0, 0⟩) = 1 := by
+    simp [Kern.norm]
+  have h := polyline_masks_cover_singular 1 ⟨0, 0, 0⟩ ⟨1, 0, 0⟩ ⟨0, 0, 1⟩ (by simp [v3eq]) (by
+    rw [hL]
+    have hu : SegBS.nsq (vd (⟨1, 0, 0⟩ : V3 ℝ) 1 - vd ⟨0, 0, 0⟩ 1) = 1 := by simp [SegBS.nsq, vd]
+    rw [SegBS.core_unit _ _ _ hu]
+    simp [SegBS.nsq, vd, V3.dot]
+    norm_num)
+  exact h.1.1
 
 end MagpyVerif.C15
